@@ -78,6 +78,21 @@ func (ex *exec) global(g *ssa.Global) *value {
 	return &cell
 }
 
+// seedGlobal gives pointer-typed globals of un-initialised model packages
+// (the loggers) a non-nil dummy object.
+func seedGlobal(v *ssa.Global, cell *value) {
+	if v.Pkg == nil {
+		return
+	}
+	switch v.Pkg.Pkg.Path() {
+	case "github.com/orda-io/orda/client/pkg/log":
+		if pt, ok := mustDeref(v.Type()).Underlying().(*types.Pointer); ok {
+			obj := zero(pt.Elem())
+			*cell = &obj
+		}
+	}
+}
+
 // initPackage allocates the globals of pkg and runs its init function
 // (concretely).  Calls from an init into packages outside the interpreted set
 // are skipped.
@@ -89,6 +104,7 @@ func (ex *exec) initPackage(pkg *ssa.Package) {
 	for _, m := range pkg.Members {
 		if v, ok := m.(*ssa.Global); ok {
 			cell := zero(mustDeref(v.Type()))
+			seedGlobal(v, &cell)
 			ex.globals[v] = &cell
 		}
 	}
